@@ -152,6 +152,11 @@ def parse_spec(path):
         elif d == '@define':
             comp.defines.append(parts[1])
             i += 1
+        elif d in ('@thread_local', '@noncopyable'):
+            # static facts of the C++ text that the C extraction cannot express: `@thread_local CNAME Cxx...` (the object
+            # must have thread storage duration), `@noncopyable CLASS Cxx...` (copy constructor and copy assignment deleted)
+            comp.static_reqs = getattr(comp, 'static_reqs', []) + [(d[1:], parts[1], parts[2:])]
+            i += 1
         elif d == '@extract_define':
             comp.extract_defines = getattr(comp, 'extract_defines', []) + [parts[1]]
             i += 1
@@ -227,6 +232,15 @@ def parse_spec(path):
             comp.groups.append(g)
         else:
             raise SpecError('%s:%d: unknown directive %s' % (path, i + 1, d))
+    if getattr(comp, 'static_reqs', None):
+        g = Group(comp.name + '.static_facts')
+        g.native = 'static_facts'
+        g.note = 'facts of the C++ text that the C extraction cannot express (storage duration, deleted copy operations), read from the clang AST'
+        for _k, _n, props in comp.static_reqs:
+            for x in props:
+                if x not in g.properties:
+                    g.properties.append(x)
+        comp.groups.append(g)
     # a group is registered for every property that a clause of its enforced function is tagged with
     for g in comp.groups:
         if g.enforce and g.enforce in comp.functions:
